@@ -129,3 +129,104 @@ def r_parse_section(rec):
 
 
 REPLAYERS["pyanalyze.options._parse_config_section"] = r_parse_section
+
+
+def search_cmdline():
+    """a command-line value (also a falsy one) wins over the configuration file"""
+    import os
+    import tempfile
+    from pyanalyze.name_check_visitor import NameCheckVisitor
+    from pyanalyze.shared_options import EnforceNoUnused
+    from pyanalyze.signature import MaximumPositionalArgs
+    d = tempfile.mkdtemp()
+    path = os.path.join(d, "pyproject.toml")
+    try:
+        for opt, file_val, cmd_vals in ((EnforceNoUnused, "true", [False, True]), (MaximumPositionalArgs, "3", [0, 5])):
+            with open(path, "w") as f:
+                f.write(f"[tool.pyanalyze]\n{opt.name} = {file_val}\n")
+            from pathlib import Path
+            for cv in cmd_vals:
+                kw = NameCheckVisitor.prepare_constructor_kwargs({opt.name: cv, "config_file": Path(path)})
+                got = kw["checker"].options.get_value_for(opt)
+                if got != cv:
+                    return f"command line {opt.name}={cv!r} with {opt.name} = {file_val} in the config file: effective value {got!r}"
+    finally:
+        try:
+            os.unlink(path)
+            os.rmdir(d)
+        except OSError:
+            pass
+    return None
+
+
+def search_layering():
+    """stacks of two chained config files with top-level values and overrides for nested prefixes x command line x module paths"""
+    import itertools
+    import os
+    import tempfile
+    from pathlib import Path
+    from pyanalyze.options import ConfigOption, Options
+    from pyanalyze.name_check_visitor import ExtraBuiltins
+    from pyanalyze.signature import MaximumPositionalArgs
+    intopt = MaximumPositionalArgs
+    d = tempfile.mkdtemp()
+    main, base = os.path.join(d, "pyproject.toml"), os.path.join(d, "base.toml")
+    layers = ["cmd", "main_ab", "main_a", "main_top", "base_ab", "base_a", "base_top"]
+    vals = {l: i + 1 for i, l in enumerate(layers)}
+
+    def write(present, extend_first):
+        def section(prefix):
+            top = [f"{intopt.name} = {vals[prefix + '_top']}"] if prefix + "_top" in present else []
+            top += [f"{ExtraBuiltins.name} = ['{prefix}_top']"] if prefix + "_top" in present else []
+            ov = []
+            for m, key in (("a", prefix + "_a"), ("a.b", prefix + "_ab")):
+                if key in present:
+                    ov.append(f"[[tool.pyanalyze.overrides]]\nmodule = '{m}'\n{intopt.name} = {vals[key]}\n{ExtraBuiltins.name} = ['{key}']\n")
+            return top, ov
+        mt, mo = section("main")
+        ext = ["extend_config = 'base.toml'"]
+        body = (ext + mt) if extend_first else (mt + ext)
+        with open(main, "w") as f:
+            f.write("[tool.pyanalyze]\n" + "\n".join(body) + "\n" + "\n".join(mo))
+        bt, bo = section("base")
+        with open(base, "w") as f:
+            f.write("[tool.pyanalyze]\n" + "\n".join(bt) + "\n" + "\n".join(bo))
+
+    applicable = {"main_ab": ("a", "b"), "main_a": ("a",), "main_top": (), "base_ab": ("a", "b"), "base_a": ("a",), "base_top": (), "cmd": ()}
+    try:
+        for r in range(0, 4):
+            for present in itertools.combinations(layers, r):
+                for extend_first in (True, False):
+                    write(set(present), extend_first)
+                    cmd = [intopt(vals["cmd"], from_command_line=True), ExtraBuiltins(["cmd"], from_command_line=True)] if "cmd" in present else []
+                    opts = Options.from_option_list(cmd, Path(main))
+                    for mp in [(), ("a",), ("a", "b"), ("a", "b", "c"), ("c",)]:
+                        app = [l for l in layers if l in present and mp[: len(applicable[l])] == applicable[l]]
+                        want_int = vals[app[0]] if app else intopt.default_value
+                        got_int = opts.for_module(mp).get_value_for(intopt)
+                        if got_int != want_int:
+                            return f"layers {present} (extend_config {'first' if extend_first else 'last'}), module {'.'.join(mp) or '<top>'}: {intopt.name} = {got_int}, documented precedence gives {want_int} ({app[0] if app else 'default'})"
+                        want_list = [l for l in app] + list(ExtraBuiltins.default_value)
+                        got_list = list(opts.for_module(mp).get_value_for(ExtraBuiltins))
+                        if got_list != want_list:
+                            return f"layers {present} (extend_config {'first' if extend_first else 'last'}), module {'.'.join(mp) or '<top>'}: {ExtraBuiltins.name} = {got_list}, documented concatenation gives {want_list}"
+    finally:
+        for p in (main, base):
+            try:
+                os.unlink(p)
+            except OSError:
+                pass
+        os.rmdir(d)
+    return None
+
+
+def r_c18_bounded(rec):
+    for fn in (search_cmdline, search_layering):
+        msg = fn()
+        if msg:
+            return True, msg
+    return False, "effective option values follow the documented precedence on the generated configuration stacks"
+
+
+REPLAYERS["C18.bounded"] = r_c18_bounded
+REPLAYERS["pyanalyze.name_check_visitor.NameCheckVisitor.prepare_constructor_kwargs"] = lambda rec: (lambda m: (bool(m), m or "command-line values win"))(search_cmdline())
